@@ -319,7 +319,9 @@ fn compare_reposition_decomposed(pre: &Ledger, post: &Ledger, ix: &Ix, idx: usiz
     let (o, pa2) = rt::exec_ix_anchor_twin(&f, &inc, &ExecOpts::default());
     if !o.ok() {
         // the single instruction succeeded: the deposit of the same liquidity into the same range must be computable
-        if is_program_code(o.code) {
+        // (with a transfer-fee mint the stand-alone deposit needs the fee-included amount of the whole cost, which may not be
+        // computable - e.g. at a 100 % fee - while the single instruction only moves the net difference: not a disagreement)
+        if is_program_code(o.code) && both_plain {
             out.push(viol("success_mismatch", idx, format!("reposition_liquidity_v2 succeeded, but the Anchor increase_liquidity_v2 of L={} into {}..{} on the re-ranged copy fails with {:#x}", new_l, lo, hi, o.code)));
         } else {
             cov.note(&format!("c12_reposition_decomposition_deposit_fails_{:#x}", o.code.min(0xffff_ffff)));
